@@ -7,6 +7,8 @@ import (
 	"reflect"
 	"strconv"
 	"strings"
+	"time"
+	_ "time/tzdata" // zone data for ScalarCase.TZ, independent of the machine
 
 	"gitee.com/xuesongtao/protoc-go-valid/valid"
 
@@ -24,6 +26,9 @@ type ScalarCase struct {
 	Carrier string            `json:"carrier"`           // var | tag | rm | map | mapiface | listmap | url | urlenc
 	Missing bool              `json:"missing,omitempty"` // map / url: the entry is absent from the input
 	RePats  map[string]string `json:"repats,omitempty"`
+	// TZ: the process's local time zone while the call runs (time.Local; "" = unchanged, UTC).
+	// Only set by single-threaded checks.
+	TZ string `json:"tz,omitempty"`
 	Others  [][2]string       `json:"others,omitempty"` // url: other parameters (name, value); map: other entries
 	Pos     int               `json:"pos,omitempty"`    // url: position of our parameter among the others
 	// listmap: one flag per list element, true = that element lacks our key
@@ -322,6 +327,13 @@ func (c *ScalarCase) viaPtr(v reflect.Value) interface{} {
 // run presents the value through the carrier and returns the error text.
 func (c *ScalarCase) run() (errText string, isNil bool, panicked interface{}) {
 	var err error
+	if c.TZ != "" {
+		if loc, lerr := time.LoadLocation(c.TZ); lerr == nil {
+			old := time.Local
+			time.Local = loc
+			defer func() { time.Local = old }()
+		}
+	}
 	panicked = ev.Guard(func() { err = c.prepare()() })
 	if err == nil {
 		return "", true, panicked
